@@ -321,7 +321,11 @@ def model_requests(case, outs):
     else:
         reqs.append({"op": "pre.token", "dict": d, "mask": mcode, "seqs": [[code[t] for t in s] for s in _flat_tokens(case)]})
     reqs.append({"op": "cooc.labels", "orients": [w["orient"] for w in case["win"]], "n": len(o["tokens"])})
-    small = sum(len(s) for s in _flat_tokens(case)) <= 24
+    # the driver also evaluates the declarative definition (Cooc.spec / specNgram / specMulti) cell by cell and
+    # compare() holds the implementation against it: always for the n-gram and multiset variants, for
+    # token / timed corpora up to 24 tokens (the larger ones are covered by theorem events_eq_spec + the model cells)
+    total = sum(len(s) for s in _flat_tokens(case))
+    small = total <= (150 if case["kind"] in ("ngram", "multi") else 24)
     r = cc.cooc_request(case, o, spec=small)
     if r is not None:
         reqs.append(r)
